@@ -873,6 +873,22 @@ impl PaZipCompressor {
             Some(ct) => ct,
             None => return Ok(None), // No suitable compression type found
         };
+
+        // The byte format stores a Far2Long record's distance and length in 16 bits each (32 bits
+        // each for Far3Long); a match that does not fit cannot be written faithfully, so it is not
+        // a candidate. (LocalMatcherConfig allows max_match_length = 65536, whose `as u16` is 0.)
+        let fits = match compression_type {
+            CompressionType::Far2Long => {
+                local_match.distance <= u16::MAX as usize && local_match.length <= u16::MAX as usize
+            }
+            CompressionType::Far3Long => {
+                local_match.distance <= u32::MAX as usize && local_match.length <= u32::MAX as usize
+            }
+            _ => true,
+        };
+        if !fits {
+            return Ok(None);
+        }
         
         // Calculate encoding cost
         let temp_match = Match::from_local_match(local_match.clone(), compression_type);
